@@ -511,4 +511,11 @@ example :
       (step cfg s tk).1.core.pt = 0 := by
   decide +kernel
 
+/-- Non-vacuity of `never_decrease`: a tick inside a run that keeps the run id. -/
+example :
+    let cfg := repaired safes3
+    let s := run cfg (init cfg [5, 7, 9]) [.user .start, tk, tkRoot]
+    s.core.runId = some 0 ∧ (step cfg s tk).1.core.runId = some 0 ∧ s.core.pt < (step cfg s tk).1.core.pt := by
+  decide +kernel
+
 end OPM.C07
